@@ -143,6 +143,13 @@ check(
     "P31 (pydantic/json_schema/sqlalchemy kinds raise) keeps only the containment clauses for those kinds; P56 (black/whitelist FQN never matches) relaxes the blacklist clause; audit events are Python-level.",
 )
 
+check(
+    "C16",
+    "Hypothesis-generated SQLAlchemy models x CRUD subsets x prefixes x app names; $ref-closure resolver, path-template/parameter consistency, operations == requested CRUD and schema == model oracles on both OpenAPI generators",
+    "Generated-input search over models and route configurations: routes are generated, written and fed back to openapi_bulk, and cdd.compound.openapi.emit.openapi is run on the same models as tuples; each document must be JSON-serialisable, every $ref must resolve inside the document, every {param} of a path template must be declared in: path, the operations present must be exactly the requested ones (C->post on the collection, R->get and D->delete on the item) and the component schema of each model must list exactly its columns with required == non-nullable.",
+    "openapi_bulk is strict only on the slice 'table name title-cases to the class name, explicit/inferable PK, no ForeignKey' (P16, P32, P33, P57 cover the rest); emit.openapi has no open class.",
+)
+
 NOT_YET = "check not built yet in this round (work in progress; DESIGN.md section 4 has the plan)"
 
 
